@@ -1308,7 +1308,25 @@ def ev_checkpoint(w, ev):
         o.on_checkpoint(w, deck, img, ev)
     import copy
     deck.memo_saved = copy.deepcopy(deck.memo)
+    w.state_digests.add(_abstract_state(img, deck, len(w.decks)))
     return "ok"
+
+
+def _abstract_state(img: bytes, deck, ndecks: int) -> str:
+    """Abstract state of a durable image for the 'distinct states reached' measure: number of members by (directory,
+    extension), whether the slide collection had been accessed, number of decks alive, number of saves so far (capped)."""
+    import io
+    import zipfile
+    from .engine import jdump
+    c = {}
+    try:
+        for n in zipfile.ZipFile(io.BytesIO(img)).namelist():
+            d, _, f = n.rpartition("/")
+            k = "%s/*.%s" % (d, f.rpartition(".")[2] if "." in f else "")
+            c[k] = c.get(k, 0) + 1
+    except Exception:  # noqa: BLE001
+        c = {"unreadable": 1}
+    return jdump([sorted(c.items()), bool(deck.slides_accessed), ndecks, min(deck.saves, 3)])
 
 
 def ev_restart(w, ev):
